@@ -92,8 +92,12 @@ pub fn writer_options(cfg: &WlConfig) -> IndexWriterOptions {
     IndexWriterOptions::builder().num_worker_threads(cfg.workers).memory_budget_per_thread(15_000_000).num_merge_threads(1).build()
 }
 
+/// process-wide switch: indexes created by the workload driver are sorted by `id` (descending); set by scenarios
+pub static SORTED: std::sync::atomic::AtomicBool = std::sync::atomic::AtomicBool::new(false);
+
 pub fn settings(cfg: &WlConfig) -> IndexSettings {
-    IndexSettings { docstore_compress_dedicated_thread: cfg.dedicated_compressor, docstore_blocksize: 64, ..IndexSettings::default() }
+    let sort_by_field = if SORTED.load(std::sync::atomic::Ordering::SeqCst) { Some(tantivy::IndexSortByField { field: "id".to_string(), order: tantivy::Order::Desc }) } else { None };
+    IndexSettings { docstore_compress_dedicated_thread: cfg.dedicated_compressor, docstore_blocksize: 64, sort_by_field, ..IndexSettings::default() }
 }
 
 /// ids visible in a fresh open of the storage (faults must be off)
